@@ -39,11 +39,12 @@ RULE = (
     "variant set (2 valid packets, truncation at every offset of the first, extra byte, two frames concatenated, empty payload) through "
     "one shared DatagramProtocol, compared datagram by datagram with a fresh protocol object; for the base-class serializers every "
     "proper prefix and frame+extra byte must be a parse error; (B) sequences of <= 4 (thorough 5) datagrams over {valid a, valid b, malformed, "
-    "empty} through four endpoint/client implementations in both directions; states = distinct (configuration, sequence prefix) "
+    "empty} through four endpoint/client implementations in both directions; (C) JSON-string datagrams of 1000..65527 bytes (65527 = largest UDP payload over IPv6) "
+    "received and sent through the same four implementations, alone and around a malformed datagram: never truncated, split or merged; states = distinct (configuration, sequence prefix) "
     "reached, transitions = datagrams processed; distinct_nontrivial = distinct (configuration, sequence) containing a malformed datagram"
 )
-ASSUMPTIONS = ["pickle is driven through a restricted Unpickler (find_class always raises)", "datagrams are delivered whole by the fake kernel (that is what a datagram socket does)"]
-BOUNDS = {"quick": "sequences <= 4", "thorough": "sequences <= 5"}
+ASSUMPTIONS = ["pickle is driven through a restricted Unpickler (find_class always raises)", "datagrams are delivered whole by the fake kernel, truncated to the bufsize passed to recv()/recvfrom() exactly as a datagram socket does"]
+BOUNDS = {"quick": "sequences <= 4; size band: 9 sizes alone + one third of the (size, bad, size) triples", "thorough": "sequences <= 5; size band: 9 sizes alone + all 81 (size, bad, size) triples"}
 
 
 class _NoGlobals(pickle.Unpickler):
@@ -154,7 +155,7 @@ EP_PACKETS = {"a": {"a": 1}, "b": [2]}
 EP_REF = {"a": ("P", {"a": 1}), "b": ("P", [2]), "bad": ("E",), "empty": ("E",), "two": ("E",)}
 
 
-def run_endpoint(subject: str, seq: tuple[str, ...]) -> dict:
+def run_endpoint(subject: str, seq: tuple[str, ...], EP_DGRAMS: dict = EP_DGRAMS, EP_PACKETS: dict = EP_PACKETS) -> dict:
     world = World(Ctx(), horizon=600)
     sock = world.dgram_socket()
     proto = DatagramProtocol(JSONSerializer())
@@ -252,8 +253,45 @@ def run_endpoint_job(subject: str, tier: str, res: JobResult) -> None:
     res.samples.append({"part": "endpoint", "subject": subject, "alphabet": {k: v.decode() for k, v in EP_DGRAMS.items()}, "max_sequence": maxlen})
 
 
+# (C) size band: datagrams up to the largest UDP payload (65527 bytes over IPv6; 65507 over IPv4) are neither truncated nor split
+SIZE_BAND = (1000, 8192, 8193, 65506, 65507, 65508, 65520, 65526, 65527)
+
+
+def size_tables() -> tuple[dict, dict, dict]:
+    dgrams = {f"s{n}": b'"' + bytes(97 + (i % 23) for i in range(n - 2)) + b'"' for n in SIZE_BAND}
+    dgrams["bad"] = b"{oops"
+    packets = {k: v[1:-1].decode() for k, v in dgrams.items() if k != "bad"}
+    ref = {k: ("P", packets[k]) if k in packets else ("E",) for k in dgrams}
+    return dgrams, packets, ref
+
+
+def run_size_job(subject: str, tier: str, res: JobResult) -> None:
+    dgrams, packets, ref = size_tables()
+    names = [f"s{n}" for n in SIZE_BAND]
+    seqs = [(a,) for a in names] + [(a, "bad", b) for a in names for b in names if tier != "quick" or (SIZE_BAND.index(int(a[1:])) + SIZE_BAND.index(int(b[1:]))) % 3 == 0]
+    for seq in seqs:
+        obs = run_endpoint(subject, seq, dgrams, packets)
+        res.evaluations += 1
+        res.transitions += len(seq)
+        exp = [ref[k] for k in seq]
+        exp_sent = [dgrams[k] for k in seq if k in packets]
+        res.nontrivial.add(digest((subject, "size", seq)))
+        bad = None
+        if obs["got"] != exp:
+            bad = "large-datagram-not-delivered-intact"
+        elif obs["sent"] != exp_sent:
+            bad = "large-packet-not-sent-as-one-intact-datagram"
+        res.outcome(f"{subject}-size-ok" if bad is None else "VIOLATION:" + bad)
+        if bad and not any(v.key == f"endpoint/{subject}/{bad}" for v in res.violations):
+            short = [(g[0], len(g[1]) if len(g) > 1 and isinstance(g[1], str) else g[1:]) for g in obs["got"]]
+            res.violations.append(Violation(f"endpoint/{subject}/{bad}", f"{subject} datagram sizes {seq}: results (kind, length) {short}; sent lengths {[len(x) for x in obs['sent']]}",
+                                            {"part": "C", "subject": subject, "seq": list(seq)}))
+    res.states += len(seqs)
+    res.samples.append({"part": "size-band", "subject": subject, "sizes": list(SIZE_BAND), "sequences": len(seqs)})
+
+
 def jobs(tier: str) -> list[dict]:
-    return [{"part": "A", "cfg": c.name, "tier": tier} for c in all_cfgs()] + [{"part": "B", "subject": s, "tier": tier} for s in ("sync-endpoint", "sync-client", "async-endpoint", "async-client")]
+    return [{"part": "A", "cfg": c.name, "tier": tier} for c in all_cfgs()] + [{"part": p, "subject": s, "tier": tier} for p in ("B", "C") for s in ("sync-endpoint", "sync-client", "async-endpoint", "async-client")]
 
 
 def run_job(job: dict) -> JobResult:
@@ -261,6 +299,8 @@ def run_job(job: dict) -> JobResult:
     if job["part"] == "A":
         cfg = next(c for c in all_cfgs() if c.name == job["cfg"])
         run_protocol_job(cfg, job["tier"], res)
+    elif job["part"] == "C":
+        run_size_job(job["subject"], job["tier"], res)
     else:
         run_endpoint_job(job["subject"], job["tier"], res)
     return res
@@ -273,6 +313,14 @@ def replay(doc: dict) -> tuple[bool, str]:
         exp = [EP_REF[k] for k in rp["seq"]]
         exp_sent = [EP_DGRAMS[k] for k in rp["seq"] if k in EP_PACKETS]
         return obs["got"] != exp or obs["sent"] != exp_sent, f"subject={rp['subject']} seq={rp['seq']}\nobserved={obs}\nexpected results={exp} sent={exp_sent}"
+    if rp["part"] == "C":
+        dgrams, packets, ref = size_tables()
+        obs = run_endpoint(rp["subject"], tuple(rp["seq"]), dgrams, packets)
+        exp = [ref[k] for k in rp["seq"]]
+        exp_sent = [dgrams[k] for k in rp["seq"] if k in packets]
+        short = [(g[0], len(g[1]) if len(g) > 1 and isinstance(g[1], str) else g[1:]) for g in obs["got"]]
+        return obs["got"] != exp or obs["sent"] != exp_sent, (f"subject={rp['subject']} sizes={rp['seq']}\nresults (kind, length)={short}\n"
+                                                               f"sent lengths={[len(x) for x in obs['sent']]} expected {[len(x) for x in exp_sent]}")
     cfg = next(c for c in all_cfgs() if c.name == rp["cfg"])
     vs = dict(variants(cfg))
     shared = cfg.datagram_protocol()
